@@ -292,6 +292,7 @@ public:
                         self()->allocate_long_table(my_embedded_table, start_index);
                     // It is possible that the table was extended by the thread that allocated first
                     // block. In this case, the below CAS fails and re-reads the new table pointer.
+                    __TBB_VERIF_POINT(vp_cv_table_switch, this, start_index);
                     if (my_segment_table.compare_exchange_strong(
                             table, new_table,
                             /*memory order in case of a success*/std::memory_order_release,
@@ -545,6 +546,7 @@ protected:
     void assign_first_block_if_necessary(segment_index_type index) {
         size_type zero = 0;
         if (this->my_first_block.load(std::memory_order_relaxed) == zero) {
+            __TBB_VERIF_POINT(vp_cv_first_block, this, index);
             this->my_first_block.compare_exchange_strong(zero, index);
         }
     }
